@@ -66,9 +66,17 @@ def run_io(doc, fmt, voc):
         except Exception as e:
             texts["string"] = None
             out["text"]["string_exc"] = type(e).__name__
-        for kind in ("text", "binary", "path"):
+        for kind in ("text", "binary", "path", "pathover"):
             try:
-                if kind == "text":
+                if kind == "pathover":
+                    # the named file already exists and is LONGER than what is written now
+                    p = os.path.join(root, "over." + fmt)
+                    with io.open(p, "wb") as fh:
+                        fh.write(b"previous, longer content of the file\n" * 4000)
+                    doc.serialize(p, format=fmt)
+                    with io.open(p, "rb") as fh:
+                        texts[kind] = fh.read().decode("utf-8")
+                elif kind == "text":
                     s = io.StringIO()
                     doc.serialize(s, format=fmt)
                     texts[kind] = s.getvalue()
@@ -83,7 +91,7 @@ def run_io(doc, fmt, voc):
                         texts[kind] = fh.read().decode("utf-8")
             except Exception as e:
                 texts[kind] = None
-        for kind in ("text", "binary", "path"):
+        for kind in ("text", "binary", "path", "pathover"):
             out["text"][kind] = same_text(fmt, texts.get("string"), texts.get(kind))
         if fmt == "provn":
             return out
@@ -103,6 +111,17 @@ def run_io(doc, fmt, voc):
                 out["doc"][kind] = doc_digest(ProvDocument.deserialize(format=fmt, **kw), voc, setlike)
             except Exception as e:
                 out["doc"][kind] = "error:" + type(e).__name__
+        # prov.read(path) without a format does not trust the file name: the same bytes under the
+        # extension of another format, and under no extension
+        wrong = {"json": "xml", "xml": "json", "rdf": "json"}[fmt]
+        for key, fname in (("pathwrong", "export." + fmt + "." + wrong), ("pathnoext", "export")):
+            pth = os.path.join(root, fname)
+            with io.open(pth, "wb") as fh:
+                fh.write(data)
+            try:
+                out["read"][key + "_detect"] = doc_digest(prov.read(pth), voc, setlike)
+            except Exception as e:
+                out["read"][key + "_detect"] = "error:" + type(e).__name__
         for kind in ("text", "binary", "path"):
             for how in ("explicit", "detect"):
                 kw = sources()[kind]
